@@ -46,7 +46,7 @@ def sub(P, name, args, atoms, mem=None):
     f = P.fn(name, required=False)
     if f is None:
         raise Unsupported('accessor %s is gone' % name)
-    it = cint.CInt(P, f, atoms=atoms, recurse=True, mem=mem)
+    it = cint.CInt(P, f, atoms=atoms, recurse=True, mem=mem, strict=True)
     r = it.run(args)
     if r[0] != 'ret' or not isinstance(r[1], int):
         raise Unsupported('accessor %s does not evaluate: %s' % (name, r[1]))
@@ -118,7 +118,8 @@ def build(P, T, sc):
         M.field('nitems', M.n)
         M.field('data', 600000)
         M.field('nslots', len(occ))
-        M.field('sspace', 0)
+        M.field('sspace0', 610000)
+        M.field('sspace1', 620000)
         M.label = ('slots %s' % ''.join('x' if o else '.' for o in occ)) if occ else 'no slots'
         for i, o in enumerate(occ):
             M.words[probe_read(P, 'Table_Key_Hash', [SELF, i], a)] = (0x9000 + i) if o else 0
@@ -181,7 +182,7 @@ def eval_cursor_walk(P, T, which=('iter_init', 'iter_next', 'iter_last', 'iter_p
             raise cint.NoEval('call %s' % nm)
 
         def run(m, args):
-            it = cint.CInt(P, fns[m], atoms=M.atoms, call=call, recurse=True, mem=M.mem, max_steps=3000)
+            it = cint.CInt(P, fns[m], atoms=M.atoms, call=call, recurse=True, mem=M.mem, max_steps=3000, strict=True)
             try:
                 return it.run(args)
             except Mismatch as x:
@@ -245,7 +246,7 @@ def eval_tree_lookup(P, method):
                 if nm == 'len' and it.ev(e[2][0]) == SELF:
                     return M.n
                 raise cint.NoEval('call %s' % nm)
-            it = cint.CInt(P, fn, atoms=M.atoms, call=call, recurse=True, mem=M.mem, max_steps=3000)
+            it = cint.CInt(P, fn, atoms=M.atoms, call=call, recurse=True, mem=M.mem, max_steps=3000, strict=True)
             try:
                 r = it.run([SELF, TOK])
             except Mismatch as x:
@@ -306,14 +307,14 @@ def eval_teardown(P, T, fname, args=None, reset=()):
                         seen.append(it.ev(e[2][0]))
                         return 0
                     raise cint.NoEval('call %s' % nm)
-                r = cint.CInt(P, P.fn('List_Free'), atoms=M.atoms, call=probe_call, recurse=True).run([SELF, el])
+                r = cint.CInt(P, P.fn('List_Free'), atoms=M.atoms, call=probe_call, recurse=True, strict=True).run([SELF, el])
                 if len(seen) != 1:
                     raise Unsupported('List_Free does not release one block')
                 blocks[seen[0]] = [el]
         else:
             blocks = {nd: [k, v] for nd, k, v in zip(M.nodes, M.elems, M.vals)}
         a = args(M) if args else [SELF]
-        it = cint.CInt(P, fn, atoms=M.atoms, call=call, recurse=True, mem=M.mem, max_steps=6000, max_depth=10)
+        it = cint.CInt(P, fn, atoms=M.atoms, call=call, recurse=True, mem=M.mem, max_steps=6000, max_depth=10, strict=True)
         it.atoms = M.atoms
         try:
             r = it.run(a)
@@ -345,8 +346,11 @@ def eval_teardown(P, T, fname, args=None, reset=()):
                 (': %s' % extra if extra else '')
         else:
             want_frees = sorted(k_ for k_ in blocks)
-            real = [f for f in frees if f != 0]
-            if sorted(real) != want_frees:
+            scratch = {M.atoms.get(('elem', 'self', 0, 'sspace0')), M.atoms.get(('elem', 'self', 0, 'sspace1'))} - {None} if T == 'Table' else set()
+            real = [f for f in frees if f != 0 and f not in scratch]           # (the destructor also releases the Table's two scratch records)
+            if len(set(frees)) != len(frees):
+                msg = 'a block is released twice'
+            elif sorted(real) != want_frees:
                 msg = 'releases %d block(s), the container holds %d%s' % (len(real), len(want_frees), ' (a block released twice)' if len(set(real)) != len(real) else '')
             else:
                 for blk, held in blocks.items():
@@ -371,10 +375,37 @@ def eval_node_alloc(P, T):
     fname = '%s_Alloc' % T
     fn = P.fn(fname)
     HDR = 8 * len(P.records['Header']['fields']) if 'Header' in P.records else 24
-    for ksize, vsize in ((8, 16), (24, 8), (0, 8)):
+    for szk, szv in ((8, 16), (24, 8), (0, 8), (5, 3)):
         atoms = {('global', 'NULL'): 0, ('global', 'Terminal'): TERM}
-        for f, v in (('type', 8500), ('ktype', 8500), ('vtype', 8501), ('tsize', ksize), ('ksize', ksize), ('vsize', vsize), ('nitems', 3), ('root', 0), ('head', 0), ('tail', 0)):
+        for f, v in (('type', 8500), ('ktype', 8500), ('vtype', 8501), ('tsize', szk), ('ksize', szk), ('vsize', szv), ('nitems', 3), ('root', 0), ('head', 0), ('tail', 0)):
             atoms[('elem', 'self', 0, f)] = v
+        # the size fields are whatever the type's constructor derives from size(type) (it may round them): taken from the constructor
+        # itself, evaluated with the same size() answers the allocator gets
+        ctor = P.fn(P.slot(T, 'New', 'construct_with'), required=False)
+        if ctor is not None:
+            def ccall(nm, e, it, szk=szk, szv=szv):
+                if nm == 'get':
+                    k = it.ev(e[2][1])
+                    if isinstance(k, tuple) and k[0] == 'stack':
+                        return 8500 + k[2][0]
+                    raise cint.NoEval('get with a key that is no Int literal')
+                if nm == 'cast':
+                    return it.ev(e[2][0])
+                if nm == 'size':
+                    return {8500: szk, 8501: szv}.get(it.ev(e[2][0]), 8)
+                if nm == 'len':
+                    return 2 if T == 'Tree' else 1
+                raise cint.NoEval('call %s' % nm)
+            catoms = dict(atoms)
+            cit = cint.CInt(P, ctor, atoms=catoms, call=ccall, recurse=True, strict=True)
+            cit.atoms = catoms
+            cr = cit.run([SELF, 9100])
+            if cr[0] == 'ret':
+                for f in ('tsize', 'ksize', 'vsize'):
+                    if ('elem', 'self', 0, f) in catoms and isinstance(catoms[('elem', 'self', 0, f)], int):
+                        atoms[('elem', 'self', 0, f)] = catoms[('elem', 'self', 0, f)]
+        ksize = atoms[('elem', 'self', 0, 'ksize' if T == 'Tree' else 'tsize')]
+        vsize = atoms[('elem', 'self', 0, 'vsize')]
         BASE = 100000
         st = {'size': None, 'inits': [], 'mem': {}}
 
@@ -396,6 +427,8 @@ def eval_node_alloc(P, T):
                 args = [it.ev(x) for x in e[2]]
                 st['size'] = args[0] * args[1] if nm == 'calloc' else args[0]
                 return BASE
+            if nm == 'size':
+                return {8500: szk, 8501: szv}.get(it.ev(e[2][0]), 8)
             if nm == 'header_init':
                 h, t, al = it.ev(e[2][0]), it.ev(e[2][1]), it.ev(e[2][2])
                 if not inside(h, HDR):
@@ -403,8 +436,8 @@ def eval_node_alloc(P, T):
                 st['inits'].append((h, t, al))
                 return h + HDR
             raise cint.NoEval('call %s' % nm)
-        it = cint.CInt(P, fn, atoms=atoms, call=call, recurse=True, mem=mem, memw=memw, max_depth=6)
-        label = '%s element of %d%s bytes' % (T, ksize, ('+%d' % vsize) if T == 'Tree' else '')
+        it = cint.CInt(P, fn, atoms=atoms, call=call, recurse=True, mem=mem, memw=memw, max_depth=6, strict=True)
+        label = '%s element of type size %d%s (size fields %d%s)' % (T, szk, ('+%d' % szv) if T == 'Tree' else '', ksize, ('+%d' % vsize) if T == 'Tree' else '')
         try:
             r = it.run([SELF])
             if r[0] != 'ret' or not isinstance(r[1], int):
@@ -471,12 +504,33 @@ def eval_visits(P, T, fname, mode):
             if nm == 'len' and it.ev(e[2][0]) == SELF:
                 return M.n
             raise cint.NoEval('call %s' % nm)
-        it = cint.CInt(P, fn, atoms=M.atoms, call=call, recurse=True, mem=M.mem, max_steps=4000)
-        try:
-            r = it.run([SELF, GC, FN] if mode == 'mark' else [SELF])
-        except Mismatch as x:
-            bad = bad or '%s: %s' % (M.label, x)
+        base_atoms = dict(M.atoms)
+
+        def build_run(oracle, M=M, seen=seen, call=call, base_atoms=base_atoms):
+            del seen[:]
+            M.atoms.clear()
+            M.atoms.update(base_atoms)
+            it = cint.CInt(P, fn, atoms=M.atoms, call=call, recurse=True, mem=M.mem, max_steps=4000, strict=True)
+            it.atoms = M.atoms
+            it.unknown = oracle          # a field the model knows nothing about (added by a change) may hold anything
+            try:
+                return it.run([SELF, GC, FN] if mode == 'mark' else [SELF]), list(seen), None
+            except Mismatch as x:
+                return None, list(seen), str(x)
+        runs = cint.all_unknown(build_run)
+        r, seen_, mm = runs[0][1]
+        extra = ''
+        for assign, (r_, s_, m_) in runs[1:]:
+            # prefer the assignment under which something goes wrong
+            if m_ or (r_ is not None and r_[0] == 'ret' and sorted(map(repr, s_)) != sorted(map(repr, owned))):
+                r, seen_, mm = r_, s_, m_
+                extra = ' (with %s)' % ', '.join('%s = %d' % (k_[3] if len(k_) > 3 else k_, v_) for k_, v_ in assign.items())
+                break
+        seen = seen_
+        if mm:
+            bad = bad or '%s%s: %s' % (M.label, extra, mm)
             continue
+        M.label += extra
         ncase += 1
         if r[0] == 'stuck' and r[1] != 'step bound':
             unsup = unsup or '%s: %s at %s' % (M.label, r[1], P.cfg(fn).describe(r[2]))
